@@ -22,6 +22,7 @@ import SF.Ubjson.Parse
 import SF.Ubjson.Cst
 import SF.Proofs.UbjParseTop
 import SF.Proofs.UbjBridgeTop
+import SF.Proofs.UbjConverseTop
 namespace SF.Props.C06
 open SF SF.Ubjson
 
@@ -175,3 +176,67 @@ example : SF.Props.UbjBridge.exU.ok = true ∧
   decide +kernel
 
 end SF.PropsUbjRef.C06
+
+
+/-! ## the CONVERSE: what `Parse` accepts (proofs SF/Proofs/UbjConv*.lean, UbjConverseTop.lean)
+
+Stated against `LItem` = `Syn.Item` with ONE leniency made explicit: in plain and counted (not
+typed) objects the parser skips no-op bytes `N` between a key and its value (`{i0 N Z}` is accepted;
+draft 12 does not say, the reference decoder answers `undetermined`).  Everything else is strict
+(kernel-evaluated examples in SF/Proofs/UbjConverseTop.lean).  The converse needs no fuel side
+condition: acceptance excludes the model's `outOfFuel`. -/
+
+namespace SF.PropsUbjConv.C06
+open SF SF.Ubjson SF.Ubjson.Parse SF.Ubjson.Syn SF.Ubjson.Chunk SF.Ubjson.Conv
+
+/-- THE CONVERSE: whatever `Parse` accepts is a stream of well-formed items (with the no-ops the
+parser skips), and the events delivered are exactly the items' events -/
+theorem accepted_is_stream (b : Bytes) (h : (parse {} b).2 = none) :
+    ∃ (xs : List (Nat × LItem)) (trail : Nat), lokElems xs = true ∧ b = lwireStream xs trail ∧
+      events (parse {} b).1 = levElems xs :=
+  SF.Props.UbjConverse.accepted_is_stream b h
+
+/-- … for EVERY CHUNKING (`Write` per chunk, then end of input — `ParseReader`) -/
+theorem accepted_chunks_is_stream (cs : List Bytes) (h : (writeChunks {} cs).2 = none) :
+    ∃ (xs : List (Nat × LItem)) (trail : Nat), lokElems xs = true ∧ cs.flatten = lwireStream xs trail ∧
+      events (writeChunks {} cs).1 = levElems xs :=
+  SF.Props.UbjConverse.accepted_chunks_is_stream cs h
+
+/-- … in the grammar `Syn.Item` itself when no item has a no-op between a key and its value -/
+theorem accepted_plain_is_stream (b : Bytes) (xs : List (Nat × LItem)) (trail : Nat)
+    (hb : b = lwireStream xs trail) (hp : plainElems xs = true) (hok : lokElems xs = true) :
+    okElems (eraseElems xs) = true ∧ b = wireStream (eraseElems xs) trail ∧ levElems xs = evElems (eraseElems xs) :=
+  SF.Props.UbjConverse.accepted_plain_is_stream b xs trail hb hp hok
+
+/-- the negative clause: an input that is not such a stream is rejected with an error -/
+theorem not_stream_is_rejected (b : Bytes)
+    (h : ¬ ∃ (xs : List (Nat × LItem)) (trail : Nat), lokElems xs = true ∧ b = lwireStream xs trail) :
+    ∃ e, (parse {} b).2 = some e :=
+  SF.Props.UbjConverse.not_stream_is_rejected b h
+
+/-- EXACTNESS (fuel-free): the main loop followed by the end-of-input check accepts `b` if and
+only if `b` is a stream of well-formed items of the lenient grammar -/
+theorem run_accepted_iff (b : Bytes) :
+    (∃ p, Runs {} b p none ∧ (finalize p).2 = none) ↔
+    ∃ (xs : List (Nat × LItem)) (trail : Nat), lokElems xs = true ∧ b = lwireStream xs trail :=
+  SF.Props.UbjConverse.run_accepted_iff b
+
+/-- EXACTNESS for `Parse`, on every input on which the model's fuel does not run out -/
+theorem accepted_iff (b : Bytes) (hfuel : (parse {} b).2 ≠ some .outOfFuel) :
+    (parse {} b).2 = none ↔
+    ∃ (xs : List (Nat × LItem)) (trail : Nat), lokElems xs = true ∧ b = lwireStream xs trail :=
+  SF.Props.UbjConverse.accepted_iff b hfuel
+
+/-- what is rejected: unknown markers (`]`, `[}`, `{]`), `N` as an element type, `$` without `#`,
+negative lengths, a closing bracket after a counted container, truncated input; and the leniency -/
+example :
+    (parse {} [0x5d]).2 = some .unknownMarker ∧ (parse {} [0x5b, 0x7d]).2 = some .unknownMarker ∧
+    (parse {} [0x5b, 0x24, 0x4e, 0x23, 0x69, 0x00]).2 = some .unknownMarker ∧
+    (parse {} [0x5b, 0x24, 0x5a, 0x69, 0x03]).2 = some .missingCount ∧
+    (parse {} [0x5b, 0x23, 0x69, 0xff]).2 = some .negativeLen ∧
+    (parse {} [0x5b, 0x23, 0x69, 0x00, 0x5d]).2 = some .unknownMarker ∧
+    (parse {} [0x5b, 0x5a]).2 = some .incomplete ∧
+    (parse {} [0x7b, 0x69, 0x00, 0x4e, 0x5a, 0x7d]).2 = none ∧
+    (parse {} [0x7b, 0x4e, 0x7d]).2 = some .unknownMarker := by decide +kernel
+
+end SF.PropsUbjConv.C06
